@@ -4,8 +4,8 @@ import Chiritori.Props.C13Entry
 
   `blockStyle_of_blockDoc` (Props/C13Entry.lean) needs the *removed ranges* to be block-style (`BlockMarkers`).  Here
   that is derived from a condition on the *tags of the ready elements* (`blockMarkers_of_tags`, `blockStyle_of_tags`):
-  the opening tag begins behind blanks only on a line that is not the first, and does not itself begin with a line
-  break; the closing tag ends in front of a line break or at the end of the text; for an unwrap-block that can be
+  the opening tag begins behind blanks only on a line that is not the first (or at offset 0 of the text), and does not
+  itself begin with a line break; the closing tag ends in front of a line break or at the end of the text; for an unwrap-block that can be
   unwrapped, the wrapper line in front of the closing tag is not empty.  The removed ranges are unions of extents of
   ready elements, so each begins where an extent begins and ends where an extent ends (`mergeMarkers_ends`,
   `collect_ends`).
@@ -299,7 +299,8 @@ theorem unwrapParts_nl (b : Bytes) (st en : Token) (h t : Rng) (hu : unwrapParts
 theorem blockMarkers_of_tags (src ds de : List Char) (cfg : Cfg) (hde : de ≠ [])
     (h : ∀ e ∈ elementsOf (parseSource src ds de), conditionHolds cfg e.1 = true →
       StartOK (bytesOf src) e.2.1.bstart ∧ StopOK (bytesOf src) e.2.2.bstop ∧
-      (∀ hd tl, unwrapParts (bytesOf src) e.2.1 e.2.2 = some (hd, tl) → (bytesOf src)[tl.1]? ≠ some NL)) :
+      (hasAttr e.1 "unwrap-block" = true →
+        ∀ hd tl, unwrapParts (bytesOf src) e.2.1 e.2.2 = some (hd, tl) → (bytesOf src)[tl.1]? ≠ some NL)) :
     BlockMarkers (bytesOf src) (buildRemoveMarker cfg (bytesOf src) (parseSource src ds de)) := by
   apply blockMarkers_of_extents src ds de cfg hde
   intro r hr
@@ -313,7 +314,8 @@ theorem blockMarkers_of_tags (src ds de : List Char) (cfg : Cfg) (hde : de ≠ [
     simp only at g1 g2 g3
     unfold extentOf at hre
     split at hre
-    · cases hu : unwrapParts (bytesOf src) st en with
+    · rename_i hua
+      cases hu : unwrapParts (bytesOf src) st en with
       | none => rw [hu] at hre; simp at hre
       | some ht =>
         obtain ⟨hd, tl⟩ := ht
@@ -323,7 +325,7 @@ theorem blockMarkers_of_tags (src ds de : List Char) (cfg : Cfg) (hde : de ≠ [
         obtain ⟨q1, _, _, _, q5⟩ := unwrapParts_geo _ st en hd tl hu
         rcases hre with rfl | rfl
         · exact ⟨by rw [q1]; exact g1, Or.inl n1⟩
-        · refine ⟨⟨g3 hd r hu, r.1, Nat.le_refl _, Or.inl ⟨n2, n3⟩, ?_⟩, by rw [q5]; exact g2⟩
+        · refine ⟨⟨g3 hua hd r hu, r.1, Nat.le_refl _, Or.inl ⟨n2, n3⟩, ?_⟩, by rw [q5]; exact g2⟩
           intro i h1 h2; omega
     · split at hre
       · simp only [List.mem_cons, List.not_mem_nil, or_false] at hre
@@ -337,7 +339,8 @@ theorem blockMarkers_of_tags (src ds de : List Char) (cfg : Cfg) (hde : de ≠ [
 theorem blockStyle_of_tags (src ds de : List Char) (cfg : Cfg) (hde : de ≠ [])
     (h : ∀ e ∈ elementsOf (parseSource src ds de), conditionHolds cfg e.1 = true →
       StartOK (bytesOf src) e.2.1.bstart ∧ StopOK (bytesOf src) e.2.2.bstop ∧
-      (∀ hd tl, unwrapParts (bytesOf src) e.2.1 e.2.2 = some (hd, tl) → (bytesOf src)[tl.1]? ≠ some NL)) :
+      (hasAttr e.1 "unwrap-block" = true →
+        ∀ hd tl, unwrapParts (bytesOf src) e.2.1 e.2.2 = some (hd, tl) → (bytesOf src)[tl.1]? ≠ some NL)) :
     BlockStyleK (minusRanges (bytesOf src) (extentsOfSource src ds de cfg))
       (positions (buildRemoveMarker cfg (bytesOf src) (parseSource src ds de)) 0) :=
   blockStyle_of_blockDoc src ds de cfg hde (blockMarkers_of_tags src ds de cfg hde h)
@@ -368,21 +371,22 @@ theorem startOKB_sound (b : Bytes) (x : Nat) (h : startOKB b x = true) : StartOK
 def tagsB (cfg : Cfg) (b : Bytes) (e : Element × Token × Token) : Bool :=
   !conditionHolds cfg e.1 ||
     (startOKB b e.2.1.bstart && (b[e.2.2.bstop]? == some NL || e.2.2.bstop == b.length) &&
-      (match unwrapParts b e.2.1 e.2.2 with
-       | some (_, tl) => b[tl.1]? != some NL
-       | none => true))
+      (!hasAttr e.1 "unwrap-block" ||
+        (match unwrapParts b e.2.1 e.2.2 with
+         | some (_, tl) => b[tl.1]? != some NL
+         | none => true)))
 
 theorem tagsB_sound (cfg : Cfg) (b : Bytes) (es : List (Element × Token × Token)) (h : es.all (tagsB cfg b) = true) :
     ∀ e ∈ es, conditionHolds cfg e.1 = true →
       StartOK b e.2.1.bstart ∧ StopOK b e.2.2.bstop ∧
-      (∀ hd tl, unwrapParts b e.2.1 e.2.2 = some (hd, tl) → b[tl.1]? ≠ some NL) := by
+      (hasAttr e.1 "unwrap-block" = true → ∀ hd tl, unwrapParts b e.2.1 e.2.2 = some (hd, tl) → b[tl.1]? ≠ some NL) := by
   intro e he hc
   have := List.all_eq_true.mp h e he
   simp only [tagsB, hc, Bool.not_true, Bool.false_or, Bool.and_eq_true, Bool.or_eq_true, beq_iff_eq] at this
   obtain ⟨⟨h1, h2⟩, h3⟩ := this
   refine ⟨startOKB_sound b _ h1, h2, ?_⟩
-  intro hd tl hu
-  rw [hu] at h3
+  intro hua hd tl hu
+  rw [hu, hua] at h3
   simpa using h3
 
 set_option maxRecDepth 8192 in
@@ -390,6 +394,11 @@ example : BlockStyleK (minusRanges (bytesOf exSrc) (extentsOfSource exSrc "<".to
     (positions (buildRemoveMarker exCfg (bytesOf exSrc) (parseSource exSrc "<".toList ">".toList)) 0) :=
   blockStyle_of_tags exSrc "<".toList ">".toList exCfg (by decide)
     (tagsB_sound exCfg (bytesOf exSrc) _ (by decide +kernel))
+
+/-- a default-strategy element with an empty line in front of its closing tag is within the hypothesis (the clause about the
+    wrapper line concerns unwrap-blocks only) -/
+example : (elementsOf (parseSource "a\n<rm name='a'>\nx\ny\n\n</rm>\nb\n".toList "<".toList ">".toList)).all
+    (tagsB exCfg (bytesOf "a\n<rm name='a'>\nx\ny\n\n</rm>\nb\n".toList)) = true := by decide +kernel
 
 /-- with an unwrap-block that is unwrapped -/
 def uwSrc2 : List Char :=
